@@ -179,7 +179,7 @@ def discover(app, prefix, wsgi):
 SEGMENU = ["a", "u s", "é", "user", "b.c", "a+b", "x#y"]
 
 
-def body_discovery(i1, i2, nseg, slash, restarts):
+def body_discovery(i1, i2, nseg, slash, restarts, bare_existing=False):
     prefix, wsgi, mode = ctx.PART  # mode: "defaults" | "autocreate" | "wsgi-defaults" (xandikos/wsgi.py start-up)
     wsgi_module = mode.startswith("wsgi-")
     if wsgi_module:
@@ -205,6 +205,14 @@ def body_discovery(i1, i2, nseg, slash, restarts):
         if r.status_class != "2xx":
             return (False, "mkcalendar-failed")
         cal = base + "/calendars/mine"
+    if mode == "defaults" and bare_existing:
+        # the address book was put there by other means as a BARE git repository holding user data
+        from xv.env import mstore
+        ab = mweb.ROOT + base + "/contacts/addressbook"
+        w.rmtree(ab)
+        mstore.install_state("bare", ab, {"k.vcf": b"v7"})
+        mweb.set_type(ab, "addressbook")
+        Wb.open_store_from_path.cache_clear()
     for _ in range(restarts):
         before = Wm.digest(w)
         backend, app = boot(principal, mode == "autocreate", mode == "defaults", wsgi_module)
@@ -218,17 +226,20 @@ def body_discovery(i1, i2, nseg, slash, restarts):
     ok = cal in [norm(c) for c in cals]
     if mode == "defaults":
         ok = ok and (base + "/contacts/addressbook") in [norm(a) for a in abs_]
+        if bare_existing:
+            g = mweb.call(app, "GET", base + "/contacts/addressbook/k.vcf", prefix=prefix, wsgi=wsgi)
+            ok = ok and g.status_class == "2xx" and g.body == b"v7"
         g = mweb.call(app, "GET", cal + "/e.ics", prefix=prefix, wsgi=wsgi)
         ok = ok and g.status_class == "2xx" and g.body == b"xe"
     return (ok, ("wsgi-" if wsgi_module else "") + mode + ":restarts%d" % restarts)
 
 
-def h_discovery(i1: int, i2: int, nseg: int, slash: bool, restarts: int) -> bool:
+def h_discovery(i1: int, i2: int, nseg: int, slash: bool, restarts: int, bare_existing: bool) -> bool:
     """
     pre: 0 <= i1 < len(SEGMENU) and 0 <= i2 < len(SEGMENU) and 1 <= nseg <= 2 and 0 <= restarts <= ctx.b.restarts
     post: _
     """
-    return run(body_discovery, i1, i2, nseg, slash, restarts)
+    return run(body_discovery, i1, i2, nseg, slash, restarts, bare_existing)
 
 
 def body_wellknown(which, sn_in_script):
